@@ -240,12 +240,14 @@ def NoWindowRun (name : Asset → String) (p : Nat) : World → List Op → Prop
   | _, [] => True
   | w, op :: rest => ¬ WindowedOn w op p ∧ NoWindowRun name p (step name w op) rest
 
-/-- the operations that are swaps: direct, through a cw20 hook, or through the router (both entry points) -/
+/-- the operations that are swaps: direct, through a cw20 hook, or through the router (both entry points, and a
+raw `Receive` sent to the router by anybody, which executes a route as well) -/
 def IsSwapOp : Op → Prop
   | .pair _ _ _ (.swap ..) => True
   | .tokSend _ _ _ _ (.swap ..) => True
   | .tokSend _ _ _ _ (.routerOps ..) => True
   | .router _ _ (.swapOps ..) => True
+  | .router _ _ (.receive _ _ (.routerOps ..)) => True
   | _ => False
 
 end Halo
